@@ -395,6 +395,8 @@ def main(tier, seed):
     })
     from .. import svc_stack
     svc_stack.extend(rep, ID, tier, seed, 'vp.checks.c20')
+    from .. import pairs
+    pairs.extend(rep, ID, tier, seed)
     rep.coverage['part2_note'] = ('absolute-oracle scenarios (a differential oracle cannot see what every schedule shares): n clients storing one '
                                   'SOP instance UID into a directory-backed StorageAE at the same time, with scheduling points at the file-system '
                                   'look-up and create; repeated association requests from one configuration; entity re-purposed while a request is in flight')
